@@ -23,7 +23,7 @@ namespace avel {
         //=================================================
 
         explicit Denominator(std::int64_t d):
-            Denominator(d, avel::max(bit_width(abs(d) - 1l), std::int64_t(1))) {}
+            Denominator(d, avel::max(bit_width(std::int64_t(std::uint64_t(abs(d)) - 1)), std::int64_t(1))) {}
 
     private:
 
@@ -41,8 +41,9 @@ namespace avel {
 
         [[nodiscard]]
         AVEL_FINL friend div_type<std::int64_t> div(std::int64_t n, Denominator denom) {
-            std::int64_t q0 = n + mulhi(denom.mp, n);
-            q0 = (q0 >> denom.sh) - (n >> 63);
+            // Unsigned arithmetic: the intermediate results wrap for n == INT64_MIN
+            std::int64_t q0 = std::int64_t(std::uint64_t(n) + std::uint64_t(mulhi(denom.mp, n)));
+            q0 = std::int64_t(std::uint64_t(q0 >> denom.sh) - std::uint64_t(n >> 63));
             std::int64_t q = (q0 ^ denom.d_sign) - denom.d_sign;
             std::int64_t r = n - (q * denom.d);
             return {q, r};
